@@ -4378,3 +4378,56 @@ mod macros {
         run_compound_assign_op,
     };
 }
+
+// Verification hook H1 (guarded, add-only): read-only view of the VM's internal stack sizes.
+#[cfg(koto_verif)]
+impl KotoVm {
+    /// Returns (registers.len, call_stack.len, sequence_builders.len, string_builders.len,
+    /// register_base)
+    pub fn verif_stack_sizes(&self) -> (usize, usize, usize, usize, usize) {
+        (
+            self.registers.len(),
+            self.call_stack.len(),
+            self.sequence_builders.len(),
+            self.string_builders.len(),
+            self.register_base,
+        )
+    }
+}
+
+/// Verification hook H4 (guarded, add-only): drives a real `ExecutionTimeout` with real clock
+/// reads and returns a snapshot at every poll that read the clock.
+///
+/// Each snapshot is `(calls_so_far, nanos_since_start_of_last_check, interval_instructions,
+/// timed_out, nanos_since_start_read_by_the_probe_after_the_call)`.
+#[cfg(koto_verif)]
+pub fn verif_timeout_probe(
+    execution_limit: Duration,
+    max_calls: usize,
+    work_per_call: usize,
+) -> Vec<(usize, u128, usize, bool, u128)> {
+    let mut timeout = ExecutionTimeout::new(execution_limit);
+    let start = timeout.last_check;
+    let mut snapshots = vec![(0, 0, timeout.interval_instructions, false, 0)];
+    let mut sink = 0usize;
+    for call in 1..=max_calls {
+        for i in 0..work_per_call {
+            sink = std::hint::black_box(sink.wrapping_add(i));
+        }
+        let last_check_before = timeout.last_check;
+        let timed_out = timeout.check_for_timeout();
+        if timed_out || timeout.last_check != last_check_before {
+            snapshots.push((
+                call,
+                (timeout.last_check - start).as_nanos(),
+                timeout.interval_instructions,
+                timed_out,
+                (Instant::now() - start).as_nanos(),
+            ));
+        }
+        if timed_out {
+            break;
+        }
+    }
+    snapshots
+}
